@@ -103,8 +103,12 @@ Types == <<
   T(<<72,68,65,58,51>>, FALSE, 3, FALSE, 0, FALSE),   \* 9 HDA:3
   T(<<66,84,73>>, FALSE, 3, FALSE, 0, FALSE),         \* 10 BTI
   T(<<83,67,72>>, FALSE, 1, TRUE, 1, FALSE),          \* 11 SCH
-  T(<<85,76,71>>, FALSE, 4, TRUE, 1, FALSE)           \* 12 ULG
+  T(<<85,76,71>>, FALSE, 4, TRUE, 1, FALSE),          \* 12 ULG
+  T(<<83,84,82>>, TRUE, 10, FALSE, 0, FALSE),         \* 13 STR:10   (lengths where decimal and hex writing differ)
+  T(<<72,69,88>>, TRUE, 16, FALSE, 0, FALSE),         \* 14 HEX:16
+  T(<<73,71,78>>, TRUE, 12, FALSE, 0, FALSE)          \* 15 IGN:12
 >>
+BaseTypes == 1..12                                     \* the types family B runs over
 TypeText(ty) == LET t == Types[ty] IN IF t.adj THEN t.id \o <<COLON>> \o Dec(t.len) ELSE t.id
 ByteLen(ty) == IF Types[ty].bits THEN 1 ELSE Types[ty].len
 BitLen(ty) == IF Types[ty].bits THEN Types[ty].len ELSE 8 * Types[ty].len
@@ -128,7 +132,7 @@ ValidField(f) == /\ f.pk \in 0..4
                  /\ TrimNormal(f.unit) /\ TrimNormal(f.comment)
 ValidMsg(m) == /\ (m.p = 1 \/ m.w = 1) => m.prio = 0
                /\ m.qq = -1 \/ IsMasterAddr(m.qq)
-               /\ Len(m.chain) >= 1 /\ (Len(m.chain) > 1 => m.p = 0 /\ \A k \in 1..Len(m.chain) : m.chain[k][2] >= 0)
+               /\ Len(m.chain) >= 1 /\ (Len(m.chain) > 1 => m.p = 0 /\ \A k \in 1..Len(m.chain) : m.chain[k][2] \in 0..24)
                /\ (Len(m.chain) = 1 => m.chain[1][2] = -1)
                /\ \A k \in 1..Len(m.chain) : Len(m.chain[k][1]) = Len(m.chain[1][1])
                /\ \A k \in 1..Len(m.fields) : ValidField(m.fields[k]) /\ (ToMasterOrBroadcast(m) => m.fields[k].part = 1)
@@ -222,7 +226,7 @@ PayloadsB(ty) == {<<0, 0, <<>>, <<>>>>, <<3, 0, <<>>, <<49>>>>, <<4, 0, <<>>, <<
                  \cup (IF Types[ty].num /\ ~Types[ty].bits THEN {<<1, 10, <<>>, <<>>>>, <<1, 2, <<>>, <<>>>>} ELSE {})
                  \cup (IF Types[ty].num /\ ~Types[ty].bits /\ Types[ty].div = 1 THEN {<<1, -10, <<>>, <<>>>>} ELSE {})
 FieldsB == UNION {{F(nm, part, ty, pl[1], pl[2], pl[3], pl[4], un, <<>>) :
-                     nm \in {<<>>, tF}, part \in {1, 2}, pl \in PayloadsB(ty), un \in {<<>>, Kw}} : ty \in 1..Len(Types)}
+                     nm \in {<<>>, tF}, part \in {1, 2}, pl \in PayloadsB(ty), un \in {<<>>, Kw}} : ty \in BaseTypes}
 SetsB == {<<BaseMsg(w, 0, 0, <<f>>)>> : w \in {0, 1}, f \in {g \in FieldsB : ValidField(g)}}
 
 (* C: texts in message comment, unit, field comment *)
@@ -246,5 +250,45 @@ SetsD ==
        <<Named(r0, tC, tA, <<16>>), r0, Named(w0, tC2, tA, <<17>>)>>,
        <<big>>, <<Named(big, tC, tG, <<18, 1>>), w0>>, <<ch, r0>>, <<Named(big, tC2, tG, <<19>>), ch, u0, w0>> }
 
-DefSets(thorough) == SetsA \cup SetsB \cup SetsC(IF thorough THEN 4 ELSE 3) \cup SetsD
+(* E: number bases.  Every column that is written in hex (QQ, ZZ, PBSB, ID bytes of single and chained ids, in the   *)
+(*    first part, in later parts and in the common prefix) carries bytes of the three classes < 0x0a, 0x0a..0x63,     *)
+(*    >= 0x64; every column written in decimal (chain lengths, field lengths, divisors, value list keys) carries      *)
+(*    values >= 10 and >= 16 - so that a decimal/hex mix-up in either direction changes the text or its meaning       *)
+ChainsE == {
+  << <<<<13, 40, 0>>, 16>>, <<<<13, 41, 0>>, 16>>, <<<<13, 42, 0>>, 16>> >>,        \* 0d2800:16;0d2900:16;0d2a00:16
+  << <<<<14, 1>>, 8>>, <<<<14, 162>>, 6>> >>,                                        \* 0e01:8;0ea2:6
+  << <<<<162, 13, 5>>, 10>>, <<<<162, 13, 100>>, 17>>, <<<<162, 13, 10>>, 24>> >>,  \* a20d05:10;a20d64:17;a20d0a:24
+  << <<<<5>>, 10>>, <<<<99>>, 16>>, <<<<100>>, 9>>, <<<<255>>, 1>> >>,              \* 05:10;63:16;64:9;ff:1
+  << <<<<9, 10>>, 16>>, <<<<10, 9>>, 10>> >>,                                        \* 090a:16;0a09:10
+  << <<<<16>>, 16>>, <<<<10>>, 10>> >> }                                             \* 10:16;0a:10
+IdsE == { <<10>>, <<16>>, <<99, 100>>, <<255, 16, 9>>, <<9, 10, 99, 100>> }
+PbsbE == { <<7, 4>>, <<10, 99>>, <<100, 16>>, <<181, 9>> }
+QqE == {3, 15, 16, 55, 113, 255}                            \* 03 0f 10 37 71 ff
+ZzE == {8, 10, 21, 80, 100, 154, 254}                       \* 08 0a 15 50 64 9a fe
+Vals3 == << <<9, tA>>, <<10, tF>>, <<16, tG>>, <<100, tN>>, <<254, <<97, 32, 98>> >> >>   \* 9=a;10=f;16=g;100=n;254=a b
+SetsE ==
+  LET strF(m0) == <<F(tF, DefaultPart(m0), 4, 0, 0, <<>>, <<>>, <<>>, <<>>)>>
+      chainMsgs == {M(w, 0, 0, tC, tN, <<>>, -1, 8, pbsb, ch, <<>>) : w \in {0, 1}, ch \in ChainsE, pbsb \in {<<181, 9>>, <<100, 16>>}}
+      idMsgs == {M(k[1], k[2], k[3], tC, tN, <<>>, -1, 8, pbsb, << <<id, -1>> >>, <<>>) :
+                   k \in {<<0, 0, 0>>, <<1, 0, 0>>, <<0, 1, 0>>}, id \in IdsE, pbsb \in PbsbE}
+      adrMsgs == {M(k[1], k[2], k[3], tC, tN, <<>>, qq, zz, <<181, 9>>, << <<<<13>>, -1>> >>, <<>>) :
+                   k \in {<<0, 0, 5>>, <<0, 1, 0>>, <<1, 1, 0>>}, qq \in QqE, zz \in ZzE}
+      numFields == {F(tF, 2, 13, 0, 0, <<>>, <<>>, <<>>, <<>>), F(tF, 1, 13, 0, 0, <<>>, <<>>, <<>>, <<>>),
+                    F(tF, 2, 14, 0, 0, <<>>, <<>>, <<>>, <<>>), F(tF, 2, 15, 0, 0, <<>>, <<>>, <<>>, <<>>),
+                    F(tF, 1, 15, 0, 0, <<>>, <<>>, <<>>, <<>>), F(<<>>, 2, 1, 2, 0, Vals3, <<>>, <<>>, <<>>),
+                    F(tF, 1, 3, 2, 0, Vals3, <<>>, Kw, tA)}
+                   \cup {F(tF, pt, ty, 1, d, <<>>, <<>>, <<>>, <<>>) : pt \in {1, 2}, ty \in {1, 3, 12}, d \in {16, 100, 1000, -16, -100}}
+                   \cup {F(tF, 2, 2, 1, d, <<>>, <<>>, <<>>, <<>>) : d \in {16, 100, 1000}}
+      chA == M(0, 0, 0, tC, tA, <<>>, 16, 80, <<100, 16>>, << <<<<162, 13, 5>>, 10>>, <<<<162, 13, 100>>, 17>> >>,
+               <<F(tF, 2, 13, 0, 0, <<>>, <<>>, <<>>, <<>>), F(tG, 2, 1, 2, 0, Vals3, <<>>, <<>>, <<>>)>>)
+      chB == M(1, 0, 0, tC2, tG, tA, 113, 100, <<10, 99>>, << <<<<16>>, 16>>, <<<<10>>, 10>> >>,
+               <<F(tF, 1, 3, 1, 100, <<>>, <<>>, Kw, <<>>)>>)
+      sgl == M(0, 1, 0, tC, tF, <<>>, 255, 154, <<7, 4>>, << <<<<99, 100>>, -1>> >>, <<F(tN, 1, 15, 0, 0, <<>>, <<>>, <<>>, <<>>)>>)
+  IN {<<[m EXCEPT !.fields = strF(m)]>> : m \in chainMsgs} \cup {<<m>> : m \in chainMsgs}
+     \cup {<<m>> : m \in idMsgs} \cup {<<[m EXCEPT !.fields = strF(m)]>> : m \in {x \in idMsgs : x.pbsb = <<100, 16>>}}
+     \cup {<<m>> : m \in {x \in adrMsgs : ValidMsg(x)}}
+     \cup {<<BaseMsg(w, 0, 0, <<f>>)>> : w \in {0, 1}, f \in numFields}
+     \cup {<<chA, chB, sgl>>, <<sgl, chB>>, <<chB, chA>>}
+
+DefSets(thorough) == SetsA \cup SetsB \cup SetsC(IF thorough THEN 4 ELSE 3) \cup SetsD \cup SetsE
 =============================================================================
